@@ -105,3 +105,42 @@ def run_stream(ctx, name, mod, fn, n_cases, per_chunk=60, canon_kw=None, raise_k
 def _short(x, n=1500):
     s = repr(x)
     return s if len(s) <= n else s[:n] + "…"
+
+
+def replay(ctx, payload, canon_kw=None):
+    """Re-run the case of a replay file against the current tree: implementation, Lean model and
+    the implementation results recorded when the violation was found.  Exit 1 while the recorded
+    behaviour persists or model and implementation disagree, 0 otherwise."""
+    from . import impl
+
+    canon_kw = canon_kw or {}
+    case = payload.get("case", {})
+    prog = case.get("case", case)
+    if not isinstance(prog, dict) or "steps" not in prog:
+        print("replay: this file carries no protocol program; see its 'what'/'detail' fields")
+        print(json.dumps(payload, indent=1, default=str)[:3000])
+        return 1
+    env = {k: ser.dec_val(v) for k, v in prog["env"].items()}
+    res, _ = impl.run_prog(env, prog["steps"])
+    now = canon_results(strip_py(res), **canon_kw)
+    then = canon_results(case.get("impl", []), **canon_kw) if case.get("impl") else None
+    prog = dict(prog, id=0)
+    ctx.lean.build()
+    ctx.driver_ok = bool(ctx.lean.build_ok)
+    m = ctx.model([prog])
+    mod = canon_results(m[0]["results"], **canon_kw) if m and "results" in m[0] else None
+    print("what:", payload.get("what"))
+    for k, st in enumerate(prog["steps"]):
+        a = now[k] if k < len(now) else None
+        b = mod[k] if mod and k < len(mod) else None
+        c = then[k] if then and k < len(then) else None
+        tag = "agree" if a == b else "MODEL-DIFFERS"
+        print(f"step {k} {st['op']} {st.get('params')}: implementation vs model: {tag}; "
+              f"same as recorded: {c is None or a == c}")
+        if a != b:
+            print("  implementation:", _short(a, 800))
+            print("  model         :", _short(b, 800))
+    bad = (mod is not None and now[: len(mod)] != mod[: len(now)])
+    persists = then is not None and now == then and payload.get("kind") == "violation"
+    print("verdict:", "violation reproduces" if (bad or persists) else "not reproduced on this tree")
+    return 1 if (bad or persists) else 0
